@@ -140,6 +140,13 @@ func vKnown(id string, c bool) {
 	}
 }
 
+// vKnownFor limits a known-finding region to the listed assertion ids (comma separated).
+func vKnownFor(id string, c bool, asserts string) {
+	if c {
+		vKnownHit = append(vKnownHit, id)
+	}
+}
+
 func vReach(id string)                  { vReached = append(vReached, id) }
 func vObserve(name string, v interface{}) {}
 func vSymbolic() bool                   { return false }
